@@ -165,6 +165,11 @@ def hw_ok(c):
         return False
     if c["fs"] != 0 or c.get("seg") == "FS":
         return False
+    wo = instr_gen.AREA_WO
+    if c["placement"] == "wo" or any(wo - 0x1000 <= (v & 0xffffffffffffffff) < wo + 0x2000 for v in c["regs"]):
+        # x86 page tables cannot express "writable but not readable": the host maps such a page read-write
+        # (any register pointing near the write-only area excludes the case, whatever the placement label says)
+        return False
     # a branch into the middle of its own bytes makes the CPU execute garbage afterwards
     if is_control(code) and c["rip"] <= c.get("nb64", 0) < c["rip"] + len(c["code"]) and c.get("nb64", 0) != 0:
         return False
